@@ -338,6 +338,10 @@ def any_all(m: Any, name: str, arg: V) -> V:
         raise EngineError(f"{name}() of a non-generator")
     ge: ast.GeneratorExp = arg.obj[1]
     env = arg.obj[2]
+    for h in getattr(m.world, "anyall_hooks", []):
+        r = h(m, name, ge, env)
+        if r is not None:
+            return r
     if len(ge.generators) != 1:
         raise EngineError(f"{name}(): nested comprehension")
     gen = ge.generators[0]
